@@ -30,6 +30,7 @@ type filePlan struct {
 	Src  string
 	Mode os.FileMode
 	Kind string // unformatted | formatted | invalid
+	Link bool   // the path is a symbolic link to the source file, which lives outside the formatted tree
 }
 
 type c26run struct {
@@ -110,6 +111,7 @@ func (c26) NewRun(plan *simrt.Source, job *harn.Job) harn.Run {
 			fp.Kind = "invalid"
 			fp.Src = fmt.Sprintf(invalidSrc, nonce)
 		}
+		fp.Link = plan.Chance(120)
 		r.files = append(r.files, fp)
 	}
 	switch plan.Biased(5, 550) {
@@ -140,7 +142,7 @@ func (c26) NewRun(plan *simrt.Source, job *harn.Job) harn.Run {
 	r.work = append(r.work, fmt.Sprintf("xgo fmt %s %s (inject error: %v, umask %03o)", strings.Join(r.flags, " "), strings.Join(r.args, " "), r.inject, r.umask))
 	h := uint64(14695981039346656037)
 	for _, f := range r.files {
-		r.work = append(r.work, fmt.Sprintf("%s mode=%o %s %q", f.Rel, f.Mode, f.Kind, f.Src))
+		r.work = append(r.work, fmt.Sprintf("%s mode=%o %s symlink=%v %q", f.Rel, f.Mode, f.Kind, f.Link, f.Src))
 	}
 	for _, l := range r.work {
 		for _, c := range []byte(l) {
@@ -168,8 +170,9 @@ type fstate struct {
 	mode   os.FileMode
 }
 
+// readState is what a user sees at the path (symbolic links are followed).
 func readState(path string) fstate {
-	fi, err := os.Lstat(path)
+	fi, err := os.Stat(path)
 	if err != nil {
 		return fstate{}
 	}
@@ -188,12 +191,22 @@ func (r *c26run) populate() error {
 	if err := os.WriteFile(filepath.Join(r.dir, "go.mod"), []byte("module example.com/c26\n\ngo 1.18\n"), 0644); err != nil {
 		return err
 	}
+	shared := r.dir + "-shared"
+	os.RemoveAll(shared)
 	for _, f := range r.files {
 		p := filepath.Join(r.dir, f.Rel)
-		if err := os.WriteFile(p, []byte(f.Src), 0644); err != nil {
+		real := p
+		if f.Link {
+			os.MkdirAll(shared, 0755)
+			real = filepath.Join(shared, filepath.Base(f.Rel))
+			if err := os.Symlink(real, p); err != nil {
+				return err
+			}
+		}
+		if err := os.WriteFile(real, []byte(f.Src), 0644); err != nil {
 			return err
 		}
-		if err := os.Chmod(p, f.Mode); err != nil {
+		if err := os.Chmod(real, f.Mode); err != nil {
 			return err
 		}
 	}
@@ -234,6 +247,7 @@ func (r *c26run) RunSeq(sched *simrt.Source, keepLog bool) *simrt.Result {
 	}
 	r.dir = filepath.Join(base, fmt.Sprintf("c26-%d", os.Getpid()))
 	defer os.RemoveAll(r.dir)
+	defer os.RemoveAll(r.dir + "-shared")
 	cwd, _ := os.Getwd()
 	defer os.Chdir(cwd)
 	// the process umask is part of the environment the command runs in
